@@ -32,6 +32,8 @@ OBJS = [
     {"ü": "ünïcödé ✓ \U0001F600", "n": 18446744073709551615 // 2, "f": 37.0},
     [],
     {"s": " leading and trailing  spaces ", "colon": "a: b, c"},
+    {"characteristics": [{"aid": 1, "iid": 6, "value": 2**64}]},  # outside the 64-bit range of the fast encoder
+    {"characteristics": [{"aid": 1, "iid": 6, "value": -(2**63) - 1}, {"aid": 1, "iid": 7, "value": 2**70}]},
 ]
 TLVS = [b"\x06\x01\x01", b"\x00\x01\x05\x06\x01\x01\r\n\r\n\x00", bytes(range(256)) + b"\x03\xff" + b"z" * 255]
 
@@ -150,6 +152,8 @@ def case_lowlevel(p):
             try:
                 rig.run(coro)
             except Exception as e:  # noqa: BLE001
+                if not cap.since(m)[0] and not cap.since(m)[1]:
+                    continue  # refused before a single byte was handed to the transport (e.g. a value the encoder cannot represent): nothing to judge
                 out.append((f"request-raises:{type(e).__name__}", {"api": api, "target": target, "err": str(e)[:200]}))
                 continue
             reqs, calls, conn = cap.since(m)
